@@ -49,6 +49,16 @@ impl Peer {
 
     async fn do_rpc(&self, request: Request<Bytes>) -> Result<Response<Bytes>> {
         let (send_stream, recv_stream) = self.connection.open_bi().await?;
+        #[cfg(bmwill_anemo_verif)]
+        let mut verif_rpc = {
+            let mut t = crate::verif::RpcTrace::new(
+                "c",
+                self.connection.stable_id(),
+                send_stream.id().index(),
+            );
+            t.event("request", crate::verif::describe_request(&request));
+            t
+        };
         let mut send_stream =
             FramedWrite::new(send_stream, network_message_frame_codec(&self.config));
         let mut recv_stream =
@@ -59,13 +69,19 @@ impl Peer {
         //
 
         write_request(&mut send_stream, request).await?;
+        #[cfg(bmwill_anemo_verif)]
+        verif_rpc.event("written", String::new());
         send_stream.get_mut().finish()?;
+        #[cfg(bmwill_anemo_verif)]
+        verif_rpc.event("finish", String::new());
 
         //
         // Read Response
         //
 
         let mut response = read_response(&mut recv_stream).await?;
+        #[cfg(bmwill_anemo_verif)]
+        verif_rpc.event("response", crate::verif::describe_response(&response));
 
         // Set the PeerId of this peer
         response.extensions_mut().insert(self.peer_id());
